@@ -208,6 +208,7 @@ pub fn fuzz_image(data: &[u8]) {
         all_attrs: f(11),
         junk_after_end: f(12),
         extra_dir_clusters: f(13),
+        stale_count: f(14),
     };
     let mut_entropy: Vec<u32> = (0..4).map(|_| r.u32()).collect();
     let mut entropy: Vec<u32> = Vec::new();
